@@ -23,6 +23,35 @@ THEOREMS = [
     "Ural.Props.C14.unquote_delimiters",
     "Ural.Props.C14.unquote_no_new_control",
     "Ural.Props.C14.unquote_idempotent",
+    # upper_quoted
+    "Ural.Props.C14.upper_tokens",
+    "Ural.Props.C14.upper_length",
+    "Ural.Props.C14.upper_inside",
+    "Ural.Props.C14.upper_outside",
+    "Ural.Props.C14.upper_caseless",
+    "Ural.Props.C14.upper_nonhex_fixed",
+    "Ural.Props.C14.upper_escapes_upper",
+    "Ural.Props.C14.upper_same_escapes",
+    "Ural.Props.C14.upper_idempotent",
+    "Ural.Props.C14.upper_fixed_iff",
+    "Ural.Props.C14.upper_pct",
+    "Ural.Props.C14.upper_delimiters",
+    "Ural.Props.C14.upper_commutes_unquote",
+    "Ural.Props.C14.upper_commutes_quote",
+    "Ural.Props.C14.upper_kept_by_quoters",
+    # string-level forms, remaining clauses, compositions, the four API configurations
+    "Ural.Props.C14.quote_keeps_escapes_str",
+    "Ural.Props.C14.quote_rest_escaped",
+    "Ural.Props.C14.unquote_no_stray",
+    "Ural.Props.C14.unquote_delimiters_table",
+    "Ural.Props.C14.unquote_control_count",
+    "Ural.Props.C14.unquote_quote_unquote",
+    "Ural.Props.C14.quote_unquote_idempotent",
+    "Ural.Props.C14.api_tables_ok",
+    "Ural.Props.C14.api_unquote_contract",
+    "Ural.Props.C14.api_delimiters",
+    "Ural.Props.C14.api_functions",
+    "Ural.Props.C14.qsl_contract",
 ]
 TABLE_OBLIGATIONS = [
     "Ural.Props.C14.tables_percent_unsafe",
@@ -34,25 +63,34 @@ TABLE_OBLIGATIONS = [
     "Ural.Props.C14.tables_ascii",
 ]
 RULE = (
-    "A case is a string assembled from the token alphabet of the property's quantifier "
+    "A case is a string. Streams, in this order: (1) the regression corpus (minimal input of every "
+    "defect fixed for C14, and the escape shapes upper_quoted distinguishes); (2) every sequence of "
+    "<= 2 (quick) / <= 3 (thorough) atoms of the token alphabet of the property's quantifier "
     "(literal ASCII, non-ASCII incl. astral and a raw C1 control, raw space, raw delimiters, "
     "escapes of every class incl. lower-case hex, %2541, non-UTF-8 (%E9), truncated and "
     "overlong UTF-8, surrogates, C0/DEL/C1 controls, and the malformed '%', '%4', '%zz'); "
-    "each is run through safely_quote, the four safely_unquote_* functions and upper_quoted "
-    "(model vs implementation) and through the oracle. quick: every sequence of <= 2 atoms "
-    "+ seeded random sequences of 3..12 atoms; thorough: every sequence of <= 3 atoms + more "
-    "random. A second stream compares the model's UTF-8 segmentation with CPython's decoder "
-    "on byte strings. Non-trivial = the string contains a '%' or a space or a non-ASCII "
-    "character; distinct = distinct string."
+    "(3) every string of <= 5 (quick) / <= 6 (thorough) CHARACTERS over a window alphabet with one "
+    "character per scanner class: '%', a hex digit, an upper-case hex letter, a lower-case hex "
+    "letter, a non-hex letter, a delimiter, a multi-byte character (thorough: + a raw space), so "
+    "that every two- and three-character window of classes occurs at every offset; (4) seeded "
+    "random sequences of 3..12 atoms (the compositions below on every third one). Each string is run through safely_quote, the four "
+    "safely_unquote_* functions and upper_quoted, and through the 28 compositions the theorems "
+    "speak about (per unquoter u: q(u s), u(q(u s)), q(u(q(u s))), u(u s), u(upper s), upper(u s); "
+    "upper(upper s), q(upper s), upper(q s), q(q s)) and through safely_unquote_qsl / safely_quote_qsl / "
+    "their composition on [(s, None), (s, s), ('', s)] -- model vs implementation -- and through the "
+    "oracle. A second stream compares the model's UTF-8 segmentation with CPython's decoder on "
+    "byte strings. Non-trivial = the string contains a '%' or a space or a non-ASCII character; "
+    "distinct = distinct string."
 )
 EXHAUSTIVE = {
-    "quick": "all strings of <= 2 atoms over the 60-atom alphabet, all 6 functions",
-    "thorough": "all strings of <= 3 atoms over the 60-atom alphabet, all 6 functions",
+    "quick": "all strings of <= 2 atoms over the 70-atom alphabet + all strings of <= 5 characters over the 7-character window alphabet (19,607), all 6 functions and 28 compositions",
+    "thorough": "all strings of <= 3 atoms over the 70-atom alphabet + all strings of <= 6 characters over the 8-character window alphabet (299,592), all 6 functions and 28 compositions",
 }
 TRUSTED = [
     "Lean 4 kernel; axioms of every listed theorem audited to be within {propext, Classical.choice, Quot.sound}",
     "hand-written Lean model UralModel/Model/Quote.lean of ural/quote.py (tokens / itemOf / assemble / flush), tied to the code by differential execution (this run); the UNSAFE_FOR_* byte sets, the flags of the four functools.partial objects and the regex pattern strings are regenerated from the imported module on every run (Gen/QuoteTables.lean) and enter the theorems through decide-checked table obligations",
     "UTF-8: Lean core's ByteArray.utf8DecodeChar? / String.utf8EncodeChar (with core's public round-trip theorems) stand for CPython's codec; compared on byte strings in this run",
+    "the three regexes of safely_quote / upper_quoted (QUOTED_SPLIT_RE, QUOTED_RE, LOWERCASE_QUOTED_RE) are modelled by the hand-written scanner `tokens` (a '%' followed by two hex digits is an escape, escapes cannot overlap); their pattern strings and flags are pinned by the obligation tables_patterns, the behaviour is compared in this run",
     "urllib.parse.quote (default safe='/') is modelled as 'unreserved and / stay, every other UTF-8 byte becomes %XX upper-case' (CPython, modelled not verified; compared in this run)",
 ]
 ASSUMPTIONS = [
@@ -60,8 +98,12 @@ ASSUMPTIONS = [
     "plain ural.quote.unquote (lossless=False / other flag settings) is outside the model: C14 is about the safely_* functions",
 ]
 UNPROVED = (
-    "the upper_quoted clause (only hex digits of valid escapes change case) is not yet a theorem about "
-    "the scan of the output; it is checked by the oracle and the model comparison on every case"
+    "none for the model: every clause of the statement is a theorem about all strings (design.d/C14.md "
+    "maps each clause to its theorem). What stays outside the proof is the correspondence between the model "
+    "and the Python code (hand-written model, CPython's UTF-8 codec, urllib.parse.quote and the re engine): "
+    "compared by differential execution on every case, not verified; and the property's informal words "
+    "'decodes to', 'delimits', 'inside a valid escape' are read as pctStr, the regenerated UNSAFE_FOR_* "
+    "tables and EscDigitAt (Props/C14.lean)"
 )
 
 ATOMS = [
@@ -84,7 +126,12 @@ CORPUS = [
     "/%2541", "/a%E9b", "%7F%C2%85", "a b", "/%2F", "u%2Fx", "%%34%31", "%zz", "%", "%4",
     "x%E3%80%80", "%C2%A0x%E2%80%83", "t%C3%A9%40%3A%20", "é%3F%26%3D%20 ", "%C3é", "%E2%82%AC", "%e2%82%ac%41", "%F4%90%80%80",
     "a\xa0b", "x\u3000", "\u2028%41", "%E2\xa0%A0", "%C2\xa0", "\xa0%A0", "\x85%85",
+    # upper_quoted: every shape of LOWERCASE_QUOTED_RE's three alternatives, and its look-alikes
+    "%2f", "%f2", "%ff", "%fF", "%Ff", "%FF", "%22", "%c3%a9", "%aG", "%ga", "%%2f", "%2%2f", "%2f%", "%2ff",
+    "f%2f/é%c3", "%é2f", "%2\u00e9f", "a?é%41\n[%2f",
 ]
+WIN_QUICK = ["%", "2", "F", "f", "z", "/", "é"]
+WIN_THOROUGH = WIN_QUICK + [" "]
 BYTE_ATOMS = [
     [0x41], [0x20], [0xC3, 0xA9], [0xC3], [0xA9], [0xE2, 0x82, 0xAC], [0xE2, 0x82], [0xE2], [0x82],
     [0xF0, 0x9F, 0x8D, 0x8A], [0xF0, 0x9F, 0x8D], [0xF0, 0x9F], [0xF0], [0xED, 0xA0, 0x80], [0xED, 0x9F, 0xBF],
@@ -105,10 +152,18 @@ def cases(rng, tier):
     if tier == "thorough":
         for t in itertools.product(ATOMS, repeat=3):
             yield {"s": "".join(t)}
-    n = 30000 if tier == "quick" else 120000
-    for _ in range(n):
+    # every string of <= 5 / <= 6 characters over one character per scanner class
+    alpha, top = (WIN_QUICK, 5) if tier == "quick" else (WIN_THOROUGH, 6)
+    for k in range(1, top + 1):
+        for t in itertools.product(alpha, repeat=k):
+            yield {"s": "".join(t)}
+    n = 24000 if tier == "quick" else 120000
+    for i in range(n):
         k = rng.randint(3, 12)
-        yield {"s": "".join(rng.choice(ATOMS) for _ in range(k))}
+        c = {"s": "".join(rng.choice(ATOMS) for _ in range(k))}
+        if i % 3:
+            c["lite"] = 1  # the six functions only; the compositions run on every third random case
+        yield c
     # UTF-8 segmentation stream
     for a in BYTE_ATOMS:
         yield {"bytes": a}
@@ -127,7 +182,33 @@ def ops(case):
     if "bytes" in case:
         return [{"f": "utf8seg", "bytes": case["bytes"]}]
     s = case["s"]
-    return [{"f": "quote", "fn": fn, "s": s} for fn in FNS] + [{"f": "pct", "s": s}]
+    base = [{"f": "quote", "fn": fn, "s": s} for fn in FNS] + [{"f": "pct", "s": s}]
+    if case.get("lite"):
+        return base
+    return base + [{"f": "chains", "s": s}, {"f": "qsl", "s": s}]
+
+
+UNQUOTERS = FNS[1:5]
+
+
+def _qsl(s):
+    """safely_unquote_qsl / safely_quote_qsl / their composition on [(s, None), (s, s), ("", s)]"""
+    uq, qq = _fn("safely_unquote_qsl"), _fn("safely_quote_qsl")
+    qsl = [(s, None), (s, s), ("", s)]
+    return [[list(p) for p in r] for r in (uq(qsl), qq(qsl), qq(uq(qsl)))]
+
+
+def _chains(s):
+    """the compositions the theorems speak about, on the real functions (same order as the driver)"""
+    q, up = _fn("safely_quote"), _fn("upper_quoted")
+    out = []
+    for name in UNQUOTERS:
+        u = _fn(name)
+        us = u(s)
+        quq = q(u(q(us)))
+        out += [q(us), u(q(us)), quq, u(us), u(up(s)), up(us)]
+    out += [up(up(s)), q(up(s)), up(q(s)), q(q(s))]
+    return out
 
 
 def _fn(name):
@@ -160,7 +241,10 @@ def impl(case):
             return [None]
         return [out]
     s = case["s"]
-    return [lib.guarded(_fn(fn), s) for fn in FNS] + [list(unquote_to_bytes(s))]
+    base = [lib.guarded(_fn(fn), s) for fn in FNS] + [list(unquote_to_bytes(s))]
+    if case.get("lite"):
+        return base
+    return base + [lib.guarded(_chains, s), lib.guarded(_qsl, s)]
 
 
 def canon(op, out):
@@ -249,6 +333,12 @@ def oracle(case):
                     return "upper_quoted(%r) = %r: hex digit at %d not upper-cased" % (s, u, i)
             elif a != b:
                 return "upper_quoted(%r) = %r changes position %d outside an escape" % (s, u, i)
+        # consequences of the two checks above, evaluated on the output itself
+        if pct(u) != pct(s):
+            return "upper_quoted(%r) = %r decodes to %r, input decodes to %r" % (s, u, pct(u), pct(s))
+        uu = _fn("upper_quoted")(u)
+        if uu != u:
+            return "upper_quoted not idempotent on %r: %r then %r" % (s, u, uu)
     except Exception as e:  # noqa
         return "unexpected exception %s: %s on %r" % (type(e).__name__, e, s)
     return None
@@ -281,4 +371,32 @@ def classify(case):
     if re.search(r"%(?:[01][0-9A-Fa-f]|7[Ff])", s):
         labs.append("has-control-escape")
     labs.append("len<=%d" % (4 if len(s) <= 4 else 12 if len(s) <= 12 else 99))
+    # upper_quoted: which alternatives of LOWERCASE_QUOTED_RE the string exercises
+    kinds = set()
+    for m in ESC.finditer(s):
+        a, b = m.group(0)[1], m.group(0)[2]
+        kinds.add("esc:" + ("l" if a in "abcdef" else "U") + ("l" if b in "abcdef" else "U"))
+    labs.extend(sorted(kinds))
+    if kinds and kinds != {"esc:UU"}:
+        labs.append("upper-changes")
+    # two-character windows of scanner classes (%, digit 9, upper hex A, lower hex a, non-hex z,
+    # delimiter /, multi-byte é), anywhere in the string
+    cl = [_cls(c) for c in s]
+    labs.extend(sorted({"w2:" + x + y for x, y in zip(cl, cl[1:])}))
     return labs
+
+
+def _cls(c):
+    if c == "%":
+        return "%"
+    if c in "0123456789":
+        return "9"
+    if c in "ABCDEF":
+        return "A"
+    if c in "abcdef":
+        return "a"
+    if c in "/?#&=@:[]+":
+        return "/"
+    if ord(c) > 0x7F:
+        return "é"
+    return "z"
